@@ -3,6 +3,7 @@ import PprofVerif.Lemmas.MergeAccum
 import PprofVerif.Lemmas.MergeKeys
 import PprofVerif.Lemmas.MergeHeaders
 import PprofVerif.Lemmas.MergeTop
+import PprofVerif.Lemmas.MergeTotals
 /-!
 # C03 — Merging conserves every stack's weight and symbol information
 
@@ -249,6 +250,15 @@ theorem compact_idem (p : Profile) (hv : p.Valid) (ht : Typed p) (hper : 0 ≤ p
   have hh2 : headerOf c2 = combineHeadersSpec c1 [] :=
     merge_header c1 [] hin1 (by intro q hq; simp at hq; subst hq; exact hp1) c2 hc2
   exact ⟨c1, c2, hc1, hc2, hw2, by rw [hh2, combineHeadersSpec_single c1 p [] hh1]⟩
+
+/-- **per-type totals are conserved**: the element-wise int64 sum of all sample values of the
+result equals the sum over the inputs of their totals. -/
+theorem merge_totals (first : Profile) (rest : List Profile)
+    (hv : ∀ p ∈ first :: rest, p.Valid) (ht : ∀ p ∈ first :: rest, Typed p)
+    (hc : ∀ p ∈ rest, compatibleB first p = true) :
+    ∃ r, merge (first :: rest) = .ok r ∧
+      totals r = sumV first.sampleType.length ((first :: rest).map totals) :=
+  merge_totals_eq first rest ⟨hv, ht, hc⟩
 
 /-- **merging in chunks** (needed by C16): merging the merges of two chunks weighs the same as
 merging everything at once. -/
